@@ -134,12 +134,13 @@ def lines(ctx: fw.Ctx, out: fw.Outcome):
         near = rng.random() < 0.25
         if near:  # one-token near miss: must not be accepted as this kind with different values
             line2 = perturb(rng, line)
-            cases.append((kind, line2, None))
+            from . import line_common as lc
+            cases.append((kind, line2, lc.spec(kind, line2)))
         cases.append((kind, line, truth))
     mod = driver.run_parallel([f"line {KIND_ID[k]} {driver.cps(l)}" for k, l, _ in cases])
     for (k, l, truth), m in zip(cases, mod):
         i = _line_impl(k, l)
-        nontriv = truth is None or any(ord(c) > 127 or c == "\t" for c in l) or l != l.strip() or k == "ts"
+        nontriv = truth in (None, "none") or any(ord(c) > 127 or c == "\t" for c in l) or l != l.strip() or k == "ts"
         out.case("L" + fw.h(l), nontriv, {"kind": k, "line": l, "decoded": i}, tags=[k, "accepted" if i != "none" else "rejected"])
         out.traces += 1
         if i != m:
